@@ -90,7 +90,8 @@ RelevantFor(Q, clause, op, names, kinds) ==
   ELSE RelBase(Q, clause, op, names, kinds)
 \* a situation the model itself declares outside the engine's rules (fault) is always reported: the harness matches it with
 \* the known-findings file
-Relevant(clause, op, names, kinds) == clause = "model-fault" \/ RelevantFor(P, clause, op, names, kinds)
+\* ... and so is a query that raises (no property can be decided on a hand whose queries fail)
+Relevant(clause, op, names, kinds) == clause \in {"model-fault", "probe-raised"} \/ RelevantFor(P, clause, op, names, kinds)
 AllRuleNames == UNION {RulesOf(q) : q \in {"C01", "C02", "C03", "C06", "C07", "C10", "C12", "C13", "C14"}}
 WantedRules == IF "RULES" \in DOMAIN IOEnv /\ IOEnv.RULES # "" THEN {IOEnv.RULES}      \* (diagnosis: a single rule by name)
                ELSE IF P = "ALL" THEN AllRuleNames
